@@ -866,6 +866,12 @@ impl<S: Sut> World<S> {
         if !known.is_empty() {
             picks.push(known[(mix(step as u64, 13) as usize) % known.len()]);
         }
+        // the next not-yet-applied op of every author: exactly the ops a replica must accept
+        for a in 0..self.cfg.nrep {
+            if let Some(i) = (0..n).find(|&i| self.author[i] == a && k >> i & 1 == 0) {
+                picks.push(i);
+            }
+        }
         for j in picks {
             if self.cfg.misuse && S::NAME != "LWW" {
                 continue;
